@@ -44,6 +44,20 @@ func NewHost() *Host {
 		h.mu.Unlock()
 		panic("pfail")
 	})
+	list := func(xs ...interface{}) interface{} { return append([]interface{}{}, xs...) }
+	h.Env.Define("gfix1", func(a interface{}) interface{} { return list(a) })
+	h.Env.Define("gfix2", func(a, b interface{}) interface{} { return list(a, b) })
+	h.Env.Define("gfix3", func(a, b, c interface{}) interface{} { return list(a, b, c) })
+	h.Env.Define("gfix5", func(a, b, c, d, e interface{}) interface{} { return list(a, b, c, d, e) })
+	h.Env.Define("gvar", func(a interface{}, rest ...interface{}) interface{} { return list(append([]interface{}{a}, rest...)...) })
+	h.Env.Define("gtyped", func(a int64, b string, c int64) interface{} { return list(a, b, c) })
+	h.Env.Define("gtvar", func(a string, rest ...int64) interface{} {
+		out := []interface{}{a}
+		for _, r := range rest {
+			out = append(out, r)
+		}
+		return out
+	})
 	return h
 }
 
@@ -88,7 +102,26 @@ func RenderGo(v interface{}) string {
 	switch rv.Kind() {
 	case reflect.Func:
 		return "fn"
-	case reflect.Interface, reflect.Ptr, reflect.Map, reflect.Slice, reflect.Chan:
+	case reflect.Slice, reflect.Array:
+		if rv.Kind() == reflect.Slice && rv.IsNil() {
+			return "nil:" + rv.Type().String()
+		}
+		parts := make([]string, rv.Len())
+		for i := range parts {
+			parts[i] = RenderGo(rv.Index(i).Interface())
+		}
+		return "[" + strings.Join(parts, ",") + "]"
+	case reflect.Map:
+		if rv.IsNil() {
+			return "nil:" + rv.Type().String()
+		}
+		parts := make([]string, 0, rv.Len())
+		for _, k := range rv.MapKeys() {
+			parts = append(parts, RenderGo(k.Interface())+"="+RenderGo(rv.MapIndex(k).Interface()))
+		}
+		sort.Strings(parts)
+		return "{" + strings.Join(parts, ",") + "}"
+	case reflect.Interface, reflect.Ptr, reflect.Chan:
 		if rv.IsNil() {
 			return "nil:" + rv.Type().String()
 		}
